@@ -170,6 +170,12 @@ SYN = [  # read-only accessor -> underlying attribute (confirmed by reading: eac
     (re.compile(r"\bself\.iteration\b"), "self._iteration"),
     (re.compile(r"\b_simulator\.iteration\b"), "_simulator._iteration"),
     (re.compile(r"\bsim\.iteration\b"), "sim._iteration"),
+    # ChargingNetwork.station_ids is `list(self._EVSEs.keys())` (confirmed by reading; C10 checks that nothing re-orders _EVSEs): walking
+    # the EVSE mapping is walking the stations in registration order
+    (re.compile(r"__(elem|val)__\(self\._EVSEs\.values\(\)\)|__val__\(self\._EVSEs\)|__item__\(__elem__\(self\._EVSEs\.items\(\)\), 1\)"), "self._EVSEs[__elem__(self.station_ids)]"),
+    (re.compile(r"__key__\(self\._EVSEs\)|__elem__\(self\._EVSEs(\.keys\(\))?\)|__item__\(__elem__\(self\._EVSEs\.items\(\)\), 0\)"), "__elem__(self.station_ids)"),
+    (re.compile(r"__idx__\(self\._EVSEs(\.values\(\)|\.keys\(\)|\.items\(\))?\)"), "__idx__(self.station_ids)"),
+    (re.compile(r"self\._EVSEs\[__elem__\(self\.station_ids\)\]\.station_id\b"), "__elem__(self.station_ids)"),
 ]
 
 
@@ -178,6 +184,42 @@ def canon(expr_or_str):
     for a, b in SYN:
         s = a.sub(b, s)
     return s
+
+
+STATION_ORDERED = ("self.station_ids", "self._EVSEs", "self._EVSEs.keys()", "self._EVSEs.values()", "self._EVSEs.items()", "self._voltages",
+                   "self._phase_angles", "ids")
+
+
+def visits_all_stations(itx):
+    """the (expanded) iteration expression walks over every registered station in registration order, unfiltered:
+    X, enumerate(X), range(len(X)), zip(X, Y..) for X among the station-ordered containers (list()/tuple() wrappers ignored)"""
+    e = itx
+    while isinstance(e, ast.Call) and call_name(e) in ("list", "tuple", "iter") and len(e.args) == 1 and not e.keywords:
+        e = e.args[0]
+    cn = call_name(e)
+    if cn == "enumerate" and e.args:
+        return visits_all_stations(e.args[0])
+    if cn == "range" and len(e.args) == 1 and call_name(e.args[0]) == "len" and e.args[0].args:
+        return visits_all_stations(e.args[0].args[0])
+    if cn == "zip" and e.args:
+        return all(visits_all_stations(a) for a in e.args)
+    s_ = " ".join(ast.unparse(e).split())
+    return s_ in STATION_ORDERED or s_ in ("self.network.station_ids", "infrastructure.station_ids")
+
+
+def is_station_pos(s_):
+    """canonical string denotes the position of the current station in registration order"""
+    return canon(s_) in ("__idx__(self.station_ids)", "__idx__(self._voltages)", "__idx__(self._phase_angles)", "__idx__(ids)")
+
+
+def is_evse_at(recv_s, idx_s=None):
+    """canonical string denotes the EVSE of the current station of a station-order iteration (optionally: at position idx_s)"""
+    r = canon(recv_s)
+    if r == "self._EVSEs[__elem__(self.station_ids)]":
+        return True
+    if idx_s is not None and r in (f"self._EVSEs[self.station_ids[{canon(idx_s)}]]", f"self._EVSEs[ids[{canon(idx_s)}]]"):
+        return True
+    return False
 
 
 def lin(flow, expr, node):
